@@ -322,6 +322,9 @@ def run(ctx):
     from props import fringe
     fringe.case_twin_lists(ctx)
     fringe.carriers(ctx)
+    from props import glue
+    glue.limit_zero(ctx)
+    glue.pathlib_exclude(ctx)
     return ctx.finish(RULE)
 
 
